@@ -66,6 +66,9 @@ type Sched struct {
 	StepCap      bool
 	Stalled      bool // baton holder blocked without releasing
 	Preemptions  uint64
+	// pre-emption point behind a completed channel send (see postSend)
+	postInit, postOn bool
+	PostSendYields   uint64
 	// thread-stall fault (off unless StallBudget > 0): at a pre-emption point, with probability
 	// 1/StallDen, the task sleeps 1..StallMaxMs simulated milliseconds
 	StallBudget int
